@@ -16,8 +16,8 @@ def run(tier):
     wd = workdir("c04")
     tf = os.path.join(wd, "table.json")
     json.dump(table[0], open(tf, "w"))
-    for cfg in ["stable"] + (["nightly"] if thorough else []):
-        for s in range(3 if thorough else 1):
+    for cfg in ["stable", "nightly"]:
+        for s in range(12 if thorough else 1):
             o = os.path.join(wd, "untrusted.json")
             conform(cfg, ["untrusted", tf, o, ck.seed + s, 4 if thorough else 2], timeout=3000)
             _merge(ck, json.load(open(o)))
@@ -39,7 +39,7 @@ def run(tier):
                 f.write(json.dumps(pwstr.render(v["segs"], "v%d" % i)) + "\n")
                 n += 1
     o = os.path.join(wd, "pwstr.json")
-    conform("stable", ["untrusted-pwstr", sf, o, ck.seed, 20000 if thorough else 2000], timeout=3000)
+    conform("stable", ["untrusted-pwstr", sf, o, ck.seed, 100000 if thorough else 2000], timeout=3000)
     _merge(ck, json.load(open(o)))
     entries = len(set(x["e"] for x in table[0]))
     if not ck.cov["distinct_nontrivial"]:
